@@ -402,6 +402,14 @@ def opCheckMultiSig (env : Env) (sub : List POp) (s : St) : Res :=
       if !ok && hasFlag env.flags fNullFail && sigs.any (·.length > 0) then .err "ErrNullFail"
       else .ok (pushBool ok s)
 
+/-- LockTimeThreshold and SequenceLockTimeIsSeconds as named constants (kept folded in proofs: large `Int`
+    literals under dependent matches make the kernel's defeq check recurse deeply) -/
+def lockTimeThreshold : Int := 500000000
+def seqLockTimeSeconds : Int := 4194304
+def maxTxInSequenceNum : Nat := 0xffffffff
+def seqLockTimeDisabled : Nat := 2147483648
+def seqLockTimeMask : Nat := 4194304 ||| 65535
+
 /-- verifyLockTime -/
 def verifyLockTime (txLock threshold lock : Int) : Option String :=
   if !((txLock < threshold && lock < threshold) || (txLock ≥ threshold && lock ≥ threshold)) then some "ErrUnsatisfiedLockTime"
@@ -413,16 +421,9 @@ def clamp64 (z : Int) : Int :=
 
 /-! ### one opcode (thread.executeOpcode + the handler) -/
 
-/-- the handler of opcode `o` at offset `off` of script `cur` -/
-def handler (env : Env) (cur : List POp) (off : Nat) (o : POp) (s : St) : Res :=
-  let v := o.op.toNat
-  -- pushes
-  if v == 0x00 then .ok { s with ds := [] :: s.ds }
-  else if v ≤ 0x4e then .ok { s with ds := o.data :: s.ds }
-  else if v == 0x4f then .ok (pushNum (-1) s)
-  else if v == 0x50 then .err "ErrReservedOpcode"
-  else if v ≤ 0x60 then .ok { s with ds := [UInt8.ofNat (v - 0x50)] :: s.ds }
-  else match v with
+/-- 0x61–0x6a: NOP, conditionals, VERIFY, RETURN -/
+def handlerFlow (env : Env) (o : POp) (s : St) (v : Nat) : Res :=
+  match v with
   | 0x61 => .ok s                                                    -- NOP
   | 0x62 => .err "ErrReservedOpcode"                                 -- VER
   | 0x63 | 0x64 =>                                                   -- IF / NOTIF
@@ -462,6 +463,11 @@ def handler (env : Env) (cur : List POp) (off : Nat) (o : POp) (s : St) : Res :=
   | 0x6a =>                                                          -- RETURN
     if !env.cfg.afterGenesis then .err "ErrEarlyReturn"
     else if s.cond.isEmpty then .success { s with early := true } else .ok { s with early := true }
+  | _ => .err "ErrReservedOpcode"
+
+/-- 0x6b–0x7d: stack manipulation -/
+def handlerStack (env : Env) (s : St) (v : Nat) : Res :=
+  match v with
   | 0x6b => match s.ds with | a :: r => .ok { s with ds := r, as := a :: s.as } | _ => stackErr
   | 0x6c => match s.as with | a :: r => .ok { s with as := r, ds := a :: s.ds } | _ => stackErr
   | 0x6d => match s.ds with | _ :: _ :: r => .ok { s with ds := r } | _ => stackErr          -- 2DROP
@@ -492,6 +498,11 @@ def handler (env : Env) (cur : List POp) (off : Nat) (o : POp) (s : St) : Res :=
   | 0x7b => match s.ds with | a :: b :: c :: r => .ok { s with ds := c :: a :: b :: r } | _ => stackErr   -- ROT
   | 0x7c => match s.ds with | a :: b :: r => .ok { s with ds := b :: a :: r } | _ => stackErr
   | 0x7d => match s.ds with | a :: b :: r => .ok { s with ds := a :: b :: a :: r } | _ => stackErr       -- TUCK
+  | _ => .err "ErrReservedOpcode"
+
+/-- 0x7e–0x8a: splice and bitwise -/
+def handlerSplice (env : Env) (s : St) (v : Nat) : Res :=
+  match v with
   | 0x7e =>                                                          -- CAT
     match s.ds with
     | b :: a :: r => if (a ++ b).length > env.cfg.maxElem then .err "ErrElementTooBig" else .ok { s with ds := (a ++ b) :: r }
@@ -542,6 +553,11 @@ def handler (env : Env) (cur : List POp) (off : Nat) (o : POp) (s : St) : Res :=
     | a :: b :: r => if a == b then .ok { s with ds := r } else .err "ErrEqualVerify"
     | _ => stackErr
   | 0x89 | 0x8a => .err "ErrReservedOpcode"
+  | _ => .err "ErrReservedOpcode"
+
+/-- 0x8b–0xa5: arithmetic -/
+def handlerNum (env : Env) (s : St) (v : Nat) : Res :=
+  match v with
   | 0x8b => unaryNum env s (· + 1)
   | 0x8c => unaryNum env s (· - 1)
   | 0x8d | 0x8e => .err "ErrDisabledOpcode"
@@ -594,6 +610,11 @@ def handler (env : Env) (cur : List POp) (off : Nat) (o : POp) (s : St) : Res :=
         | .ok _ => match toNum env mn with | .error e => .err e | .ok _ => stackErr)
     | [mx] => (match toNum env mx with | .error e => .err e | .ok _ => stackErr)
     | [] => stackErr
+  | _ => .err "ErrReservedOpcode"
+
+/-- 0xa6–0xaf: hashes, CODESEPARATOR, signature checks -/
+def handlerCrypto (env : Env) (cur : List POp) (off : Nat) (s : St) (v : Nat) : Res :=
+  match v with
   | 0xa6 => match s.ds with | a :: r => .ok { s with ds := env.H.ripemd160 a :: r } | _ => stackErr
   | 0xa7 => match s.ds with | a :: r => .ok { s with ds := env.H.sha1 a :: r } | _ => stackErr
   | 0xa8 => match s.ds with | a :: r => .ok { s with ds := env.H.sha256 a :: r } | _ => stackErr
@@ -610,9 +631,35 @@ def handler (env : Env) (cur : List POp) (off : Nat) (o : POp) (s : St) : Res :=
     (match opCheckMultiSig env sub s with
      | .ok s' => if v == 0xaf then verifyTop "ErrCheckMultiSigVerify" s' else .ok s'
      | r => r)
-  | 0xb0 | 0xb3 | 0xb4 | 0xb5 | 0xb6 | 0xb7 | 0xb8 | 0xb9 =>           -- NOP1, NOP4..NOP10
+  | _ => .err "ErrReservedOpcode"
+
+/-- fail with the given error, if any, else continue.  (A named function rather than an inline `match`: the kernel
+    reduces matcher applications eagerly, and reducing `verifyLockTime x 500000000 y` symbolically makes it recurse on the
+    literal.) -/
+def errOr (r : Option String) (k : Res) : Res :=
+  match r with
+  | some e => .err e
+  | none => k
+
+/-- the transaction-dependent part of OP_CHECKLOCKTIMEVERIFY -/
+def cltvWithTx (c : Ctx) (lock : Int) (s : St) : Res :=
+  errOr (verifyLockTime c.tx.lockTime lockTimeThreshold (clamp64 lock))
+    (if (c.tx.inputs.getD c.idx default).sequence == maxTxInSequenceNum then .err "ErrUnsatisfiedLockTime" else .ok s)
+
+/-- the transaction-dependent part of OP_CHECKSEQUENCEVERIFY -/
+def csvWithTx (c : Ctx) (sequence : Nat) (s : St) : Res :=
+  if c.tx.version < 2 then .err "ErrUnsatisfiedLockTime" else
+  let txSeq := (c.tx.inputs.getD c.idx default).sequence
+  if txSeq &&& seqLockTimeDisabled != 0 then .err "ErrUnsatisfiedLockTime" else
+  let mask := seqLockTimeMask
+  errOr (verifyLockTime (txSeq &&& mask : Nat) seqLockTimeSeconds (sequence &&& mask : Nat)) (.ok s)
+
+/-- 0xb0–0xb9: NOPs and lock-time checks -/
+def handlerLock (env : Env) (s : St) (v : Nat) : Res :=   -- v = opcode − 0xb0
+  match v with
+  | 0 | 3 | 4 | 5 | 6 | 7 | 8 | 9 =>           -- NOP1, NOP4..NOP10
     if hasFlag env.flags fDiscourageNops then .err "ErrDiscourageUpgradableNOPs" else .ok s
-  | 0xb1 =>                                                          -- CHECKLOCKTIMEVERIFY
+  | 1 =>                                                          -- CHECKLOCKTIMEVERIFY
     if !hasFlag env.flags fCLTV || env.cfg.afterGenesis then
       (if hasFlag env.flags fDiscourageNops then .err "ErrDiscourageUpgradableNOPs" else .ok s)
     else match s.ds with
@@ -625,12 +672,8 @@ def handler (env : Env) (cur : List POp) (off : Nat) (o : POp) (s : St) : Res :=
           if lock < 0 then .err "ErrNegativeLockTime" else
           match env.ctx with
           | none => .err "ErrInvalidParams"
-          | some c =>
-            match verifyLockTime c.tx.lockTime 500000000 (clamp64 lock) with
-            | some e => .err e
-            | none =>
-              if (c.tx.inputs.getD c.idx default).sequence == 0xffffffff then .err "ErrUnsatisfiedLockTime" else .ok s
-  | 0xb2 =>                                                          -- CHECKSEQUENCEVERIFY
+          | some c => cltvWithTx c lock s
+  | 2 =>                                                          -- CHECKSEQUENCEVERIFY
     if !hasFlag env.flags fCSV || env.cfg.afterGenesis then
       (if hasFlag env.flags fDiscourageNops then .err "ErrDiscourageUpgradableNOPs" else .ok s)
     else match s.ds with
@@ -642,18 +685,31 @@ def handler (env : Env) (cur : List POp) (off : Nat) (o : POp) (s : St) : Res :=
         | .ok sq =>
           if sq < 0 then .err "ErrNegativeLockTime" else
           let sequence := (clamp64 sq).toNat
-          if sequence &&& 2147483648 != 0 then .ok s else
+          if sequence &&& seqLockTimeDisabled != 0 then .ok s else
           match env.ctx with
           | none => .panic "csv-without-tx"
-          | some c =>
-            if c.tx.version < 2 then .err "ErrUnsatisfiedLockTime" else
-            let txSeq := (c.tx.inputs.getD c.idx default).sequence
-            if txSeq &&& 2147483648 != 0 then .err "ErrUnsatisfiedLockTime" else
-            let mask := 4194304 ||| 65535
-            match verifyLockTime (txSeq &&& mask : Nat) 4194304 (sequence &&& mask : Nat) with
-            | some e => .err e
-            | none => .ok s
-  | _ => .err "ErrReservedOpcode"                                    -- 0xba..0xff: opcodeInvalid
+          | some c => csvWithTx c sequence s
+  | _ => .err "ErrReservedOpcode"
+
+/-- the handler of opcode `o` at offset `off` of script `cur` -/
+def handler (env : Env) (cur : List POp) (off : Nat) (o : POp) (s : St) : Res :=
+  let v := o.op.toNat
+  -- pushes
+  if v == 0x00 then .ok { s with ds := [] :: s.ds }
+  else if v ≤ 0x4e then .ok { s with ds := o.data :: s.ds }
+  else if v == 0x4f then .ok (pushNum (-1) s)
+  else if v == 0x50 then .err "ErrReservedOpcode"
+  else if v ≤ 0x60 then .ok { s with ds := [UInt8.ofNat (v - 0x50)] :: s.ds }
+  else if v ≤ 0x6a then handlerFlow env o s v
+  else if v ≤ 0x7d then handlerStack env s v
+  else if v ≤ 0x8a then handlerSplice env s v
+  else if v ≤ 0xa5 then handlerNum env s v
+  else if v ≤ 0xaf then handlerCrypto env cur off s v
+  else if v ≤ 0xb9 then handlerLock env s (v - 0xb0)
+  else .err "ErrReservedOpcode"                                      -- 0xba..0xff: opcodeInvalid
+
+/-- counting the operation: every opcode above OP_16 counts towards the per-script limit -/
+def bump (o : POp) (s : St) : St := if o.op.toNat > 0x60 then { s with numOps := s.numOps + 1 } else s
 
 /-- thread.executeOpcode -/
 def executeOpcode (env : Env) (cur : List POp) (off : Nat) (o : POp) (s : St) : Res :=
@@ -662,7 +718,7 @@ def executeOpcode (env : Env) (cur : List POp) (off : Nat) (o : POp) (s : St) : 
   if isDisabledOp o.op && (!env.cfg.afterGenesis || exec) then .err "ErrDisabledOpcode"
   else if alwaysIllegalOp o.op && !env.cfg.afterGenesis then .err "ErrReservedOpcode"
   else
-    let s := if o.op.toNat > 0x60 then { s with numOps := s.numOps + 1 } else s
+    let s := bump o s
     if o.op.toNat > 0x60 && s.numOps > env.cfg.maxOps then .err "ErrTooManyOperations"
     else if !isBranchExecuting s && !isConditionalOp o.op then .ok s
     else if hasFlag env.flags fMinimalData && isBranchExecuting s && o.op.toNat ≤ 0x4e && exec &&
